@@ -367,3 +367,32 @@ Proof.
   - unfold print_human. apply Forall_forall. intros c Hc. apply in_map_iff in Hc.
     destruct Hc as (d & <- & _). apply b64_char_plain.
 Qed.
+
+(** ** ParseAccountID also rejects every single-digit substitution: the
+       replacing character is a base64 digit, hence not a colon, so the raw
+       attempt fails as well *)
+Lemma Forall_set_nth {A} (P : A -> Prop) x l : forall i, Forall P l -> P x -> Forall P (set_nth i x l).
+Proof.
+  induction l as [|y l IH]; intros i HF Hx; destruct i; cbn [set_nth]; try exact HF.
+  - inversion HF; subst. constructor; assumption.
+  - inversion HF; subst. constructor; [assumption|]. apply IH; assumption.
+Qed.
+
+Lemma single_char_rejected_parse_account tab url b t wc addr i c' d' :
+  tab = crc16_table_ref -> length addr = 32%nat -> bytes_ok addr -> (i < 48)%nat ->
+  b64_digit true (plus_slash c') = Some d' ->
+  d' <> nth i (human_digits tab b t wc addr) 0 ->
+  parse_account (set_nth i c' (print_human tab url b t wc addr)) = Err EOther.
+Proof.
+  intros Ht HL Hb Hi Hd Hne. unfold parse_account.
+  assert (Hc : c' <> 58).
+  { intros ->. vm_compute in Hd. discriminate. }
+  assert (HR : parse_raw (set_nth i c' (print_human tab url b t wc addr)) = Err EOther).
+  { unfold parse_raw. rewrite split_colon_none; [reflexivity|].
+    apply Forall_set_nth; [|exact Hc].
+    unfold print_human. apply Forall_forall. intros c Hin. apply in_map_iff in Hin.
+    destruct Hin as (d & <- & _). apply b64_char_no_colon. }
+  rewrite HR.
+  rewrite (single_char_rejected tab url b t wc addr i c' Ht HL Hb Hi); [reflexivity|].
+  rewrite Hd. intros E. injection E as E. contradiction.
+Qed.
